@@ -183,6 +183,7 @@ PROPS["C12"] = {
 PROPS["C18"]["tasks"] += ["json_extends", "Simulator._add_market", "Simulator._add_agent", "Simulator._add_session",
                           "Agent.setup", "Agent.is_market_accessible", "Agent.set_market_accessible", "Agent.set_asset_volume"]
 PROPS["C17"]["tasks"] += ["IndexMarket._add_markets", "IndexMarket.setup"]
+PROPS["C18"]["tasks"] += ["effects:settings-written-only-through-copies"]      # counts / ranges / prefixes are consumed from COPIES: a later group that inherits them still sees them
 PROPS["C05"]["tasks"] += ["Agent.update_asset_volume", "Agent.update_cash_amount", "Agent.set_asset_volume", "Agent.set_cash_amount", "Agent.get_asset_volume", "Agent.get_cash_amount"]
 PROPS["C10"]["tasks"] += SKELETON
 PROPS["C05"]["tasks"] += RUNNER_ELEMS
